@@ -65,9 +65,11 @@ package ecs
 //@   loop 1 fires doc: (!o.hasComps || (obsCompsIn(o, *newMask) && obsCompsDisjoint(o, *oldMask))) && obsWithOK(o, *oldMask)
 
 //@ func (*observerManager).FireRemove
-//@   serves C08
+//@   serves C08 C09
 //@   requires obsShape(m) && oldMask != nil && newMask != nil
 //@   loop 1 fires doc: (!o.hasComps || (obsCompsIn(o, *oldMask) && obsCompsDisjoint(o, *newMask))) && obsWithOK(o, *oldMask)
+//@   modifies nothing
+//@   callbackframe
 
 //@ func (*observerManager).FireSet
 //@   serves C08
